@@ -62,6 +62,9 @@ type pos struct {
 	line int
 }
 
+// wantEmpty: the call names a frame that does not exist (skip beyond the stack).
+func (c *siteCtx) wantEmpty(id int) { c.exp = append(c.exp, expect{id, "", 0}) }
+
 func (c *siteCtx) want(id int, p pos) { c.exp = append(c.exp, expect{id, p.file, p.line}) }
 
 // here returns the source position of its caller's statement.
@@ -98,14 +101,24 @@ func configure(fast, enable bool) error {
 // rejectedThenPlain: a Refresh that is rejected because of an ill-typed caller option, then a valid
 // Refresh that does not mention the caller options at all. The options are sticky process
 // settings: a rejected configuration must leave them as they validly were.
-func rejectedThenPlain(bad string, which int) error {
+//
+// which 0/1: the option itself is ill-typed. which 2: both options are well-typed and say the
+// opposite of the current modes, but the configuration is rejected for another reason (a dangling
+// appender reference) - a configuration that is not accepted changes nothing.
+func rejectedThenPlain(bad string, which int, fast, enable bool) error {
 	log.Destroy()
 	vk.ResetRecs()
 	m := map[string]string{"appender.rec.type": "Rec", "logger.l.type": "Logger", "logger.l.tags": "_c11_t", "logger.l.appenderRef.ref": "rec"}
-	m[[]string{"enableCaller", "fastCaller"}[which]] = bad
+	if which == 2 {
+		m["enableCaller"], m["fastCaller"] = fmt.Sprint(!enable), fmt.Sprint(!fast)
+		m["logger.l.appenderRef.ref"] = "ghost"
+		bad = "(dangling reference)"
+	} else {
+		m[[]string{"enableCaller", "fastCaller"}[which]] = bad
+	}
 	if err := log.Refresh(m); err == nil {
 		log.Destroy()
-		return fmt.Errorf("Refresh accepted %s=%q", []string{"enableCaller", "fastCaller"}[which], bad)
+		return fmt.Errorf("Refresh accepted a configuration with %s=%q", []string{"enableCaller", "fastCaller", "a fault"}[which], bad)
 	}
 	log.Destroy()
 	vk.ResetRecs()
@@ -185,11 +198,11 @@ func TestC11_Sites(t *testing.T) {
 				}
 				if rapid.IntRange(0, 11).Draw(t, "rejected") == 0 {
 					bad := rapid.SampledFrom([]string{"yes", "on", "2", "enabled", ""}).Draw(t, "badValue")
-					which := rapid.IntRange(0, 1).Draw(t, "badOption")
+					which := rapid.IntRange(0, 2).Draw(t, "badOption")
 					if bad == "" {
 						bad = "maybe"
 					}
-					if err := rejectedThenPlain(bad, which); err != nil {
+					if err := rejectedThenPlain(bad, which, fast, enable); err != nil {
 						t.Fatalf("VERIF-VIOLATION C11: %v\nprogram seed %d, steps: %s", err, p.seed, strings.Join(seq, " "))
 					}
 					seq = append(seq, fmt.Sprintf("rejected(%d=%s)+plain-refresh", which, bad))
